@@ -7,8 +7,12 @@ AREAS = [("Bdd", "bdd"), ("Bcdd", "bcdd"), ("Zbdd", "zbdd"), ("HashTbl", "tbl"),
          ("Num", "nat"), ("Dddmp", "dddmp"), ("VarNames", "names"), ("Circuit", "circ"), ("Ffi", "capi"), ("Locks", "locks")]
 have = [(a, p) for a, p in AREAS if os.path.exists(os.path.join(L, "OxiddModel", a, "Driver.lean"))]
 EXTRA_PROTOS = [("capi-before-fix", "OxiddModel.Ffi.protoBeforeFix")] if any(a == "Ffi" for a, _ in have) else []
+EXTRA_IMPORTS = []
+if os.path.exists(os.path.join(L, "OxiddModel", "Reorder", "DriverStore.lean")):
+    EXTRA_PROTOS.append(("reorder-store", "OxiddModel.Reorder.SwapStore.proto"))
+    EXTRA_IMPORTS.append("OxiddModel.Reorder.DriverStore")
 PROTO_NAME = {"Num": "OxiddModel.Num.Driver.proto"}
-src = "import OxiddModel.Util.Proto\n" + "".join(f"import OxiddModel.{a}.Driver\n" for a, _ in have) + '''
+src = "import OxiddModel.Util.Proto\n" + "".join(f"import OxiddModel.{a}.Driver\n" for a, _ in have) + "".join(f"import {m}\n" for m in EXTRA_IMPORTS) + '''
 open OxiddModel
 
 def echoProto : Proto := { σ := Unit, init := (), step := fun s l => (s, l) }
